@@ -22,6 +22,7 @@ package vault
 //vx:noop github.com/hashicorp/go-metrics/compat.*
 //vx:noop (*github.com/openbao/openbao/v2/internal/helper/metricsutil.ClusterMetricSink).*
 //vx:noop github.com/openbao/openbao/v2/internal/helper/metricsutil.*
+//vx:param attempts quick=3 thorough=5
 //vx:unwind 400
 
 import (
@@ -165,7 +166,7 @@ func VxUnwrapAtMostOnce() {
 		payload: map[string]any{"response": "{\"secret\":\"s3cr3t\"}"},
 	}
 	got := 0
-	for i := 0; i < 3; i++ {
+	for i := 0; i < vxParam("attempts"); i++ {
 		holder := &logical.TokenEntry{ID: "wt", NumUses: 1, Policies: []string{"response-wrapping"}} // each caller looked the token up before anyone used it
 		resp, err := b.responseWrappingUnwrap(ctx, holder, true)
 		if err == nil && resp == "{\"secret\":\"s3cr3t\"}" {
@@ -217,7 +218,7 @@ func VxRewrapAndUnwrapShareOneUse() {
 		payload: map[string]any{"response": payload},
 	}
 	got := 0
-	for i := 0; i < 2; i++ {
+	for i := 0; i < vxParam("attempts")-1; i++ {
 		if vxBool("operation is a rewrap (else an unwrap)") {
 			d := &framework.FieldData{Raw: map[string]any{"token": "wt"}, Schema: map[string]*framework.FieldSchema{"token": {Type: framework.TypeString}}}
 			resp, err := b.handleWrappingRewrap(ctx, &logical.Request{ClientToken: "caller", Operation: logical.UpdateOperation}, d)
